@@ -10,7 +10,10 @@ are run with VERIF_REPO pointing at the worktree.  The worktree is removed after
 import argparse, json, os, shutil, subprocess, sys, tempfile, time
 ROOT = os.path.dirname(os.path.dirname(os.path.abspath(__file__)))
 sys.path.insert(0, ROOT)
-from tools.mutations import MUTATIONS
+import glob, importlib
+MUTATIONS = []
+for _f in sorted(glob.glob(os.path.join(ROOT, "tools", "mutations*.py"))):
+    MUTATIONS += importlib.import_module("tools." + os.path.basename(_f)[:-3]).MUTATIONS
 
 def sh(cmd, **kw):
     return subprocess.run(cmd, shell=True, capture_output=True, text=True, **kw)
